@@ -803,6 +803,26 @@ impl Property for C13 {
             }
             out.trace.push(format!("{} earlier run(s) killed at run.group.spawned", sc.killed_before));
         }
+        // one history in five: the files of the latest completed run carry old timestamps and those of the older
+        // retained runs timestamps from tomorrow (a clock that was ahead and has been corrected, a restored backup):
+        // which run is the latest is what the pointer says, not what the file system's timestamps suggest
+        let skew = sc.rand_seed % 5 == 1;
+        let skew_mtimes = |w: &World| {
+            let latest = std::fs::read_to_string(w.out_dir().join("tracking/run.json")).ok().and_then(|t| serde_json::from_str::<Value>(&t).ok()).and_then(|v| v["id"].as_u64()).map(|n| n.to_string());
+            let now = std::time::SystemTime::now().duration_since(std::time::UNIX_EPOCH).map(|d| d.as_secs() as i64).unwrap_or(1_800_000_000);
+            if let Ok(rd) = std::fs::read_dir(w.out_dir().join("run")) {
+                for e in rd.flatten() {
+                    let is_latest = Some(e.file_name().to_string_lossy().into_owned()) == latest;
+                    let t = if is_latest { now - 10 * 86_400 } else { now + 86_400 };
+                    let _ = crate::gitmodel::set_mtime(&e.path().join("result.json.zst"), t);
+                    let _ = crate::gitmodel::set_mtime(&e.path(), t);
+                }
+            }
+        };
+        if skew {
+            skew_mtimes(&w);
+            out.fault("file_timestamps_of_retained_runs_out_of_order", 1);
+        }
         let backup = w.root.join(".backup-out");
         let _ = std::fs::remove_dir_all(&backup);
         if w.out_dir().exists() {
@@ -895,6 +915,9 @@ impl Property for C13 {
         let max = if sc.retained_after_prefix.is_some() { usize::MAX } else { sc.spec.max_retained_runs };
         for cp in &points {
             restore(&w, &backup);
+            if skew {
+                skew_mtimes(&w);
+            }
             let mut cs = crash_script.clone();
             match cp {
                 CrashPoint::Fs(c) => cs.fs_crash = Some(c.clone()),
